@@ -87,7 +87,7 @@ class World:
             pkg = types.ModuleType('tcvpkg')
             pkg.__path__ = []
             sys.modules['tcvpkg'] = pkg
-        base = 'tcvpkg.w' + hashlib.sha256(canon_json({k: desc[k] for k in ('tasks',)})).hexdigest()[:10]
+        base = desc.get('_modname') or ('tcvpkg.w' + hashlib.sha256(canon_json({k: desc[k] for k in ('tasks',)})).hexdigest()[:10])
         self.modname = base
         if base in sys.modules:
             if modname_unique:
@@ -129,7 +129,7 @@ class World:
             cls.__module__ = self.modname
             cls._tcv_key = key
             self.classes[key] = cls
-        for name in ('Auto1', 'Auto2', 'Auto3', 'Plain1', 'Hand1', 'MemBox'):
+        for name in ('Auto1', 'Auto2', 'Auto3', 'AutoSet', 'Plain1', 'Hand1', 'MemBox'):
             mod.__dict__[name].__module__ = self.modname
         self.module = mod
         public = [n for n in mod.__dict__ if not n.startswith('_')]
@@ -546,7 +546,7 @@ class World:
             return [self._context_arg(d, c, vid, counter) for c in ctx['items']]
         data = copy.deepcopy({kk: self._value_for_config(v) for kk, v in (ctx.get('data') or {}).items()})
         if ctx.get('for_namespaces'):
-            data['for_namespaces'] = copy.deepcopy(ctx['for_namespaces'])
+            data['for_namespaces'] = {ns: {kk: self._value_for_config(copy.deepcopy(v)) for kk, v in vals.items()} for ns, vals in ctx['for_namespaces'].items()}
         if ctx.get('uses'):
             uses = []
             for u in ctx['uses']:
@@ -764,6 +764,15 @@ class Auto3(Auto1):
 
     def _tcv_state(self):
         return {'a': self.a, 'pad': self.pad}
+
+
+class AutoSet(_h.AutoParameterObject):
+    """keeps its argument as a set (a realistic way for a set to reach an AutoParameterObject attribute)"""
+    def __init__(self, items):
+        self.items = set(items)
+
+    def _tcv_state(self):
+        return {'items': sorted(self.items)}
 
 
 class Plain1:
